@@ -55,6 +55,7 @@ ABS_FLOOR = 1e-6
 #   a reused calculator (SetRates called before with other rates) vs a fresh one: same arithmetic on the same inputs; measured
 #   differences 0 (bit-identical) on the unchanged tree  ->  1e-10 relative to max|G|
 HIST_RTOL = 1e-10
+ANISO_CAP = 2e-2
 #   convergence under mesh refinement: worst residual on the (Nmax+2)-mesh / worst residual on the Nmax-mesh, over the cases where the
 #   latter exceeds 1e-6 (unchanged tree 1525122, 2026-09-23, 190 cases 2-D 4->6, 3-D 2->4, 3->5): median 0.10-0.15, 90% 0.45, max 0.545
 #   (slowest cases converge algebraically, (Nmax/(Nmax+2))^2 = 0.44); a residual that stagnates does not come from the quadrature.
@@ -364,6 +365,42 @@ def gen_manyjumps(rng, nprng, dim, Nmax, nmin=12):
     return Case("tri%dD-J%d" % (dim, len(jn)), crys, 0, cut, sl, jn, data, Nmax)
 
 
+def gen_aniso(rng, nprng, Nmax):
+    """layered structures: tetragonal / orthorhombic / hexagonal cell with a long axis c (c/a 1.5 .. 3) and slow jumps along it, so
+    that the diffusivity is strongly anisotropic (ratio of principal values 30 .. 1e4) with the slow axis along the SHORTEST
+    reciprocal direction"""
+    from onsager import crystal
+    c = rng.choice([1.6, 1.9, 2.3, 2.7])
+    kind = rng.choice(["tet", "ortho", "hex", "bct"])
+    if kind == "tet": crys = crystal.Crystal(np.diag([1., 1., c]), [[np.zeros(3)]])
+    elif kind == "ortho": crys = crystal.Crystal(np.diag([1., 1.12, c]), [[np.zeros(3)]])
+    elif kind == "hex": crys = crystal.Crystal(np.array([[.5, -math.sqrt(3) / 2, 0], [.5, math.sqrt(3) / 2, 0], [0, 0, c]]).T, [[np.zeros(3)]])
+    else: crys = crystal.Crystal(np.diag([1., 1., c]), [[np.zeros(3), np.array([.5, .5, .5])]])
+    chem = 0
+    sl = crys.sitelist(chem)
+    sh = gen.shells(crys, chem, nmax=3)
+    # smallest cutoff whose network has a jump with a component along the long axis and percolates
+    jn = None
+    for k in range(len(sh)):
+        cut = sh[k] + 1e-4
+        jn = crys.jumpnetwork(chem, cut)
+        if any(abs(dx[2]) > 1e-6 for jl in jn for (_, dx) in jl): break
+    if jn is None or sum(len(t) for t in jn) > 80: return None
+    aniso = 10.0 ** nprng.uniform(1.5, 4.0)
+    pre = [1.0] * len(sl); bE = [0.0] * len(sl)
+    preT = nprng.uniform(.7, 1.5, len(jn)).tolist()
+    bET = []
+    for jl in jn:
+        dz = max(abs(dx[2]) for (_, dx) in jl); dr = max(np.linalg.norm(dx[:2]) for (_, dx) in jl)
+        # rate x dz^2 of the slow class = in-plane rate x a^2 / aniso
+        bET.append(0.5 + (math.log(aniso * dz * dz) if dz > 1e-6 else 0.0) + nprng.uniform(0, .3))
+    case = Case("%s-c%.1f-aniso" % (kind, c), crys, chem, cut, sl, jn, (pre, bE, preT, bET), Nmax)
+    if lattice_index(case) not in (None, 1): return None
+    D = case.exactD(); ev = np.linalg.eigvalsh(D)
+    case.aniso = float(ev.max() / ev.min())
+    return case
+
+
 def reloaded(g, crys):
     """the calculator written to an (in-memory) HDF5 file and read back"""
     import h5py, os
@@ -464,7 +501,7 @@ def evaluate(case, rng, nrand=6, npairs=8, history=0, nprng=None, reload=False):
 
 def run(ck):
     ck.rule = ("crystal pool (2-D and 3-D, named + random crystal systems, 1-3 Wyckoff sets, plus the two-network pyrope Mg sublattice) x "
-               "percolating cutoff x random energies/prefactors (half of the multi-jump-type cases and a dedicated tier of named lattices with >= 2 jump types use ONE calculator object reused across 1-3 earlier, non-uniformly different rate sets, compared with a fresh calculator; a sheared tier describes named crystals with a non-reduced primitive basis = lattice x random unimodular shear, noreduce=True, and compares with the reduced description; a reload tier saves triclinic / oblique one-site calculators with more than ten jump types to HDF5 and evaluates the reloaded object) x patch of endpoints (all site pairs at the origin, unit cells, diagonal, "
+               "percolating cutoff x random energies/prefactors (half of the multi-jump-type cases and a dedicated tier of named lattices with >= 2 jump types use ONE calculator object reused across 1-3 earlier, non-uniformly different rate sets, compared with a fresh calculator; a sheared tier describes named crystals with a non-reduced primitive basis = lattice x random unimodular shear, noreduce=True, and compares with the reduced description; a reload tier saves triclinic / oblique one-site calculators with more than ten jump types to HDF5 and evaluates the reloaded object; an anisotropic tier uses layered tetragonal / orthorhombic / hexagonal / body-centred cells with c/a 1.6-2.7 and jumps along c slowed so that D is anisotropic by 30..1e4) x patch of endpoints (all site pairs at the origin, unit cells, diagonal, "
                "random cells up to a quarter of the k-mesh period); per case: residual of the diffusion equation at every patch point "
                "(numpy and exact in Coq) and its convergence under k-mesh refinement, swap / random space-group image / rate-scaling pairs, 3-D far field; distinct = distinct "
                "(crystal, cutoff, data); non-trivial = more than one patch point")
@@ -473,18 +510,20 @@ def run(ck):
                    "exact diffusivity from the C02 corrector formula (gen.exact_unitcell_D)"]
     ck.theorems()
     rng = ck.rng
-    plan = [(2, 4)] * ck.n(12, 90) + [(2, 6)] * ck.n(0, 15) + [(3, 2)] * ck.n(4, 40) + [(3, 3)] * ck.n(1, 20) + [(3, 4)] * ck.n(0, 5)
+    plan = [(2, 4)] * ck.n(8, 90) + [(2, 6)] * ck.n(0, 15) + [(3, 2)] * ck.n(4, 40) + [(3, 3)] * ck.n(1, 20) + [(3, 4)] * ck.n(0, 5)
     plan += [("pyrope", 2)] * ck.n(1, 2)
     # history tier: one calculator object reused across several rate sets (named lattices with >= 2 jump types)
-    plan += [("hist2", 4)] * ck.n(5, 30) + [("hist3", 2)] * ck.n(3, 16)
+    plan += [("hist2", 4)] * ck.n(4, 30) + [("hist3", 2)] * ck.n(2, 16)
     terms, meta = [], []
-    stats = {"ratio_res_conv": [], "K_far": [], "pair_rel": [], "conv": [], "res": [], "history_rel": [], "reload_rel": [], "ratio_refined": [], "ratio_sheared": [], "cross_description": []}
+    stats = {"ratio_res_conv": [], "K_far": [], "pair_rel": [], "conv": [], "res": [], "history_rel": [], "reload_rel": [], "anisotropy": [], "ratio_refined": [], "ratio_sheared": [], "cross_description": []}
     skipped = {"no-network": 0, "sublattice-network": 0}
     nsample = 0
     # sheared tier: a named crystal in its reduced description and in a non-reduced (unimodular shear, noreduce=True) description
     plan += [("shear2", 4)] * ck.n(2, 16) + [("shear3", 4)] * ck.n(2, 12)
     # reload tier: calculators with more than ten jump types saved to HDF5 and read back
     plan += [("reload3", 2)] * ck.n(1, 4) + [("reload2", 4)] * ck.n(1, 4)
+    # anisotropic tier: layered structures, slow axis = long axis
+    plan += [("aniso", 3)] * ck.n(2, 14)
     work = []
     for spec, Nmax in plan:
         nr = ck.nprng(rng.randrange(1 << 30))
@@ -497,6 +536,13 @@ def run(ck):
                 skipped[pr] = skipped.get(pr, 0) + 1; continue
             work.append((pr[0], 0, Nmax, nr, ("shear-ref", None)))
             work.append((pr[1], 0, Nmax, nr, ("shear", pr[2])))
+            continue
+        if spec == "aniso":
+            case = gen_aniso(rng, nr, Nmax)
+            if case is None:
+                skipped["no-network"] += 1; continue
+            stats["anisotropy"].append(case.aniso)
+            work.append((case, 0, Nmax, nr, None))
             continue
         if spec in ("reload2", "reload3"):
             case = gen_manyjumps(rng, nr, 2 if spec == "reload2" else 3, Nmax)
@@ -529,6 +575,10 @@ def run(ck):
             ck.violation("GFCrystalcalc raised %r for a valid crystal / network / rates (point group order %d)" % (e, len(case.crys.G)), rep,
                          key="c10-complex-ift-exception" if "complex IFT" in str(e) else "c10-exception"); continue
         tol = max(ABS_FLOOR, RES_FACTOR * ev["conv"])
+        if getattr(case, "aniso", None) is not None:
+            # strongly anisotropic D: G itself is large and drifts along the null vector between meshes, so conv is no useful bound;
+            # residuals measured on the unchanged tree (Nmax 3, anisotropy 2e2 .. 9e4, 8 cases): 6e-4 .. 1.2e-3 -> 20 x median
+            tol = min(tol, ANISO_CAP)
         worst = float(np.abs(ev["res"]).max())
         kind = "%s%dD-N%d-J%d-Nmax%d-nd%d-%s" % ("reused%d:" % history if history else "", case.crys.dim, case.N, len(case.jn), Nmax, ev["g"].Ndiff,
                                                 case.label.split("-")[0])
@@ -590,7 +640,8 @@ def run(ck):
                              rep, key="c10-sheared-description")
         if ev["Derr"] > 1e-8:
             ck.violation("GFCrystalcalc.D differs from the exact diffusivity by %.3g (rel)" % ev["Derr"], rep, key="c10-D")
-        tolpair = max(PAIR_RTOL * ev["gmax"], 1e-300)
+        # rounding in SetRates grows with the condition number of D (isotropisation of the pole): measured 1e-11 at anisotropy 1e3
+        tolpair = max(min(PAIR_RTOL * max(1.0, getattr(case, "aniso", 1.0)), 1e-8) * ev["gmax"], 1e-300)
         for knd, a, b in ev["pairs"]:
             stats["pair_rel"].append(abs(a - b) / ev["gmax"])
             if abs(a - b) > tolpair:
@@ -599,6 +650,9 @@ def run(ck):
                     a, b, abs(a - b), tolpair), rep, key="c10-" + knd)
         comp = network_components(case)
         for (i, j, R, val, cont, x2) in ev["far"]:
+            if getattr(case, "aniso", 1.0) > 10:
+                # a quarter of the k-mesh period is far from asymptotic in the metric of a strongly anisotropic D (measured K 30 .. 9e4)
+                skipped["far-field-anisotropic"] = skipped.get("far-field-anisotropic", 0) + 1; continue
             if ev["g"].Ndiff > 1:
                 # several disconnected networks: no propagation between them; inside one network the pole carries that
                 # network's own normalisation and diffusivity (not evaluated here)
